@@ -304,7 +304,8 @@ func union(lists ...[]*bnode) []*bnode {
 //	main "thorough-c": the rest of depth 1 (<=2 clauses per group, 5-6 leaves), depth 2 (1,1,1,2) and the
 //	                   full heap family: 11 or 12 should clauses cycling over 1..3 terms, must / must-not
 //	                   none or one term, minShould in {0,1,2,4,5,8,11,12};
-//	deep "quick": depth 2 (1,1,1,2);   deep "thorough": depth 2 (1,2,2,3).
+//	deep "quick": depth 2 (1,1,1,2);   deep "thorough": depth 2 (1,2,2,3);
+//	wide "quick": as main quick;   wide "thorough": main stages a and b together.
 func boolQueries(family, stage string) *boolSpace {
 	name := family + "/" + stage
 	if sp, ok := boolSpaces[name]; ok {
@@ -341,7 +342,13 @@ func boolQueries(family, stage string) *boolSpace {
 		return sp
 	}
 	full := false
+	if family == "wide" && stage == "thorough" {
+		// the quick set plus stage b
+		add("depth1", nodesOver(leaves, 2, mins, 4, false))
+		stage = "wide-heap"
+	}
 	switch stage {
+	case "wide-heap":
 	case "thorough-b":
 		add("depth1", minus(nodesOver(leaves, 2, mins, 4, false), nodesOver(leaves, 1, mins, 3, false)))
 		return sp
@@ -411,6 +418,7 @@ type boolFamily struct {
 	ids    []string // all document ids in index order; live ones are d0.., deleted ones delA, delB
 	layout func(c int) [][]wop
 	text   func(c int) string
+	phys   string // expected physical layout (segments / pending deletions)
 }
 
 func permMask(m int, p [3]int) int {
@@ -470,7 +478,7 @@ var boolFamilies = map[string]*boolFamily{}
 
 func initBoolFamilies() {
 	// main: segment 1 = d0, delA, d1, d2; segment 2 = delB, d3, d4; delA holds all three terms, delB none
-	boolFamilies["main"] = &boolFamily{name: "main", ndocs: 5, canon: canonCorpora(5),
+	boolFamilies["main"] = &boolFamily{name: "main", ndocs: 5, canon: canonCorpora(5), phys: "2segs/del=1+1",
 		layout: func(c int) [][]wop {
 			return [][]wop{
 				{{doc: boolDoc("d0", docMask(c, 0))}, {doc: boolDoc("delA", 7)}, {doc: boolDoc("d1", docMask(c, 1))}, {doc: boolDoc("d2", docMask(c, 2))}},
@@ -484,7 +492,23 @@ func initBoolFamilies() {
 				m(0), m(1), m(2), m(3), m(4))
 		}}
 	// deep: segment 1 = d0, delA, d1; segment 2 = delB, d2
-	boolFamilies["deep"] = &boolFamily{name: "deep", ndocs: 3, canon: canonCorpora(3),
+	// wide: four unmerged segments, one live document each: segment 1 = d0, delA; 2 = d1; 3 = delB, d2; 4 = d3
+	// (every term can recur in every segment)
+	boolFamilies["wide"] = &boolFamily{name: "wide", ndocs: 4, canon: canonCorpora(4), phys: "4segs/del=1+0+1+0",
+		layout: func(c int) [][]wop {
+			return [][]wop{
+				{{doc: boolDoc("d0", docMask(c, 0))}, {doc: boolDoc("delA", 7)}},
+				{{doc: boolDoc("d1", docMask(c, 1))}},
+				{{doc: boolDoc("delB", 0)}, {doc: boolDoc("d2", docMask(c, 2))}},
+				{{doc: boolDoc("d3", docMask(c, 3))}},
+				{{del: true, id: "delA"}, {del: true, id: "delB"}},
+			}
+		},
+		text: func(c int) string {
+			m := func(d int) string { return "{" + maskText(docMask(c, d)) + "}" }
+			return fmt.Sprintf("segment 1: d0=%s delA={x y z}(deleted); segment 2: d1=%s; segment 3: delB={}(deleted) d2=%s; segment 4: d3=%s", m(0), m(1), m(2), m(3))
+		}}
+	boolFamilies["deep"] = &boolFamily{name: "deep", ndocs: 3, canon: canonCorpora(3), phys: "2segs/del=1+1",
 		layout: func(c int) [][]wop {
 			return [][]wop{
 				{{doc: boolDoc("d0", docMask(c, 0))}, {doc: boolDoc("delA", 7)}, {doc: boolDoc("d1", docMask(c, 1))}},
@@ -627,7 +651,7 @@ func boolEval(fam *boolFamily, idx int64, param string) *explore.Result {
 			res.Key = "harness-build"
 			return res
 		}
-		if l := layoutOf(r); l != "2segs/del=1+1" {
+		if l := layoutOf(r); l != fam.phys {
 			r.Close()
 			res.Failure = "harness: unexpected layout " + l
 			res.Key = "harness-layout"
